@@ -7,8 +7,8 @@ PROP = {
         "Mps.C07.after_end_noop", "Mps.C07.early_message_is_only_queued",
     ],
     "generated": [],
-    "suites": [{"name": "handler", "quick": 500, "thorough": 15000}],
-    "propfields": {"handler": ["ok", "term", "closed", "can"]},
+    "suites": [{"name": "handler", "quick": 500, "thorough": 15000}, {"name": "twoparty", "quick": 200, "thorough": 5000}],
+    "propfields": {"handler": ["ok", "term", "closed", "can"], "twoparty": ["term", "closed", "can"]},
     "level_text": "Proof (partial): stale, duplicated, foreign and post-completion messages provably change nothing (whole-state equality, all scripts, all states); a message for a later round is only queued. The headline claim (any schedule delivering every honest message at least once gives the in-order result) is checked against the model: the real handler's result under generated schedules (any order, duplicates, replays, early arrival, p2p before broadcast) is compared with the model's IN-ORDER run, and the model itself follows the real handler step by step on the same schedule.",
     "level_note": "PARTIAL: order_independent is not yet a kernel-checked theorem (statement kept in MpsProps/C07.lean); map-iteration order in the replay of queued messages is modelled as id order (sound for one deviating party).",
 }
